@@ -208,6 +208,10 @@ def check_explicit(case, ctx: Ctx):
     bins = build_bins(spec, ps)
     arr, warr = make_data(case)
     kwargs = {"keep_missed": case["keep_missed"], "dropna": case["dropna"]}
+    if case.get("use_defaults"):
+        # the documented defaults (keep_missed=True, dropna=True) are what one gets without the arguments
+        kwargs = {k: v for k, v in kwargs.items() if v is not True}
+        ctx.label("defaults_omitted")
     if case.get("dtype"):
         kwargs["dtype"] = case["dtype"]
     if warr is not None:
@@ -286,6 +290,7 @@ def explicit_cases(draw, tier="quick"):
         "dtype": dtype, "keep_missed": draw(st.sampled_from([True, True, False])), "dropna": dropna,
         "rows": draw(st.sampled_from([None, None, 2, 3])), "as_int": draw(st.booleans()),
         "layout": draw(st.sampled_from([None, "fortran", "transposed_view", "both_fortran", "weights_fortran"])),
+        "use_defaults": draw(st.booleans()),
     }
 
 
@@ -304,7 +309,8 @@ def check_method(case, ctx: Ctx):
         kwargs["weights"] = warr
     if case.get("dtype"):
         kwargs["dtype"] = case["dtype"]
-    kwargs["keep_missed"] = case["keep_missed"]
+    if not (case.get("use_defaults") and case["keep_missed"] is True):
+        kwargs["keep_missed"] = case["keep_missed"]
     ctx.label("method_" + str(case["bins"]))
     if case.get("dtype") in INT_DTYPES and case.get("wkind") in ("dyadic", "float"):
         ctx.refused("h1 integer dtype with float weights", physt.h1, arr, case["bins"], **kwargs)
@@ -374,7 +380,7 @@ def method_cases(draw, tier="quick"):
         "bins": bins, "kwargs": kwargs, "data": data, "wkind": wkind, "weights": weights, "wform": "array",
         "dtype": draw(st.sampled_from([None, None, "int64", "float64", "float32"])),
         "keep_missed": draw(st.sampled_from([True, True, False])), "dropna": True,
-        "rows": draw(st.sampled_from([None, 2])), "as_int": draw(st.booleans()),
+        "rows": draw(st.sampled_from([None, 2])), "as_int": draw(st.booleans()), "use_defaults": draw(st.booleans()),
     }
 
 
